@@ -139,6 +139,14 @@ theorem create_takes_written_file_whole (kvs : List (Bytes × KVal)) (ts : List 
     [(keyParamCount, .scalar 10 (sumParameters (infosOf ts (offsets false align ts 0))))])
   exact ⟨_, m, h, ggufLayers_single file none Guards.tree _ _ m h rfl (by unfold two63 at *; omega) hm⟩
 
+/-- **Layers of a multi-model upload do not overlap**: whatever the upload holds, each layer create
+    cuts out of it ends where or before the next one starts — each layer is its own model's extent
+    (upstream copied n instead of n − offset bytes: a layer held its model plus part of the next ones;
+    finding F1b, repaired in /repo). -/
+theorem create_layers_disjoint (bs : Bytes) (budget : Option Nat) (maxSeek : Nat) (out : List GLayer)
+    (h : ggufLayers bs budget Guards.tree maxSeek = some (.ok out)) : Disjoint out :=
+  ggufLayers_disjoint bs budget Guards.tree rfl maxSeek out h
+
 /-- non-vacuity of `decode_encode`: two keys (one of them the alignment) and three tensors -/
 def kvEx : List (Bytes × KVal) := [(keyAlignment, .u32 32)]
 
